@@ -21,7 +21,7 @@ MONITORS = {
     'c03': Mon2.C03Progress, 'c04': Mon2.C04Runahead, 'c05': Mon2.C05Queues,
     'c11': Mon2.C11Retention, 'c31': Mon2.C31Sequential,
     'rsnap': Mon2.RestartSnap, 'c06': Mon2.C06Hold, 'c08': Mon2.C08Flows,
-    'c45': Mon2.C45AbsTriggers,
+    'c45': Mon2.C45AbsTriggers, 'c25': Mon2.C25DataStore,
 }
 
 
